@@ -264,6 +264,45 @@ def check_C08(tier, seed):
                 res.add_tie_break("correspondence: resolver model != implementation", case=s,
                                   model=c08_canon(model[i]), impl=c08_canon(impl[i]))
         res.coverage["untagged_result_kinds"] = kinds
+        # the typing of a scalar is a function of (text, style, tag): it must not depend on where the scalar stands —
+        # root of a lone document, of a later document (explicit, or bare behind a document that re-bound `!!` with %TAG
+        # and was closed by `...`), sequence entry, mapping value
+        import re as _re
+        safe = [s for s in cases if _re.fullmatch(r"[A-Za-z0-9.+_~-]{1,24}", s) and not s.startswith(("-", "---", "..."))]
+        crng = gen.rng_for(seed, "C08-context")
+        crng.shuffle(safe)
+        safe = safe[:400 if tier == "quick" else 6000]
+        tags = ["", "!!int ", "!!float ", "!!bool ", "!!null ", "!!str ", "!local "]
+        ctxs = [("alone", "%s\n"), ("later-explicit", "a\n--- %s\n"), ("later-bare-after-rebinding", "%%TAG !! tag:example.com,2000:\n--- b\n...\n%s\n"),
+                ("later-explicit-after-rebinding", "%%TAG !! tag:example.com,2000:\n--- b\n...\n--- %s\n"), ("entry", "- %s\n"), ("value", "k: %s\n")]
+        ctx_lines, ctx_meta = [], []
+        for t in safe:
+            for tg in tags:
+                for cn, pat in ctxs:
+                    ctx_lines.append(enc(pat % (tg + t)))
+                    ctx_meta.append((t, tg, cn))
+        got = run_hx(["load", "yaml", "eager"], ctx_lines)
+
+        def last_scalar(d):
+            if not d.startswith("OK "):
+                return d[:60]
+            x = d[3:].split(" ; ")[-1]
+            if x.startswith("Q[") and x.endswith("]"):
+                x = x[2:-1]
+            elif x.startswith("M{") and x.endswith("}"):
+                x = x[2:-1].split("=", 1)[-1]
+            return x
+        ref = {}
+        for (t, tg, cn), d in zip(ctx_meta, got):
+            res.evaluations += 1
+            v = last_scalar(d)
+            if cn == "alone":
+                ref[(t, tg)] = v
+            elif v != ref.get((t, tg)):
+                res.add_violation("the type/value of a scalar depends on its position in the stream (%s vs a lone document)" % cn,
+                                  dict(input=[pat for n, pat in ctxs if n == cn][0] % (tg + t), text=t, tag=tg.strip(), context=cn),
+                                  here=v[:120], alone=str(ref.get((t, tg)))[:120])
+        res.coverage["context_independence"] = dict(texts=len(safe), tags=tags, contexts=[c for c, _ in ctxs], loads=len(ctx_lines))
         res.coverage["traces_validated_against_impl"] = len(cases)
         for i in (5, len(cases) // 4, len(cases) // 2, len(cases) - 7):
             if 0 <= i < len(cases):
